@@ -17,12 +17,14 @@ pub fn property() -> Property {
             "a stand-alone PlutusScript is re-decoded with from_bytes_with_version(bytes, original language): the bytes do not carry the language".into(),
             "hash, signature and address types expose raw bytes, not CBOR: the well-formedness clause is applied to the CBOR types only".into(),
             "nesting depth <= 4 (quick) / 8 (thorough), collections <= 25 (quick) / 40 (thorough)".into(),
+            "the byte-preserving transaction type (FixedTransaction) has no equality of its own: two values are equal when body, witness set, validity flag, auxiliary data and transaction hash are (sub-check fixed_tx: the value is obtained from a generated transaction through from_bytes or the parts constructors and then given 0-5 more key / bootstrap witnesses through every adder)".into(),
         ],
         subchecks: vec![
             SubCheck { name: "roundtrip", kind: Kind::Tape { quick: 3_000_000, thorough: 30_000_000, max_len: 600 }, run: roundtrip },
             SubCheck { name: "per_type_floor", kind: Kind::Enum { count: floor_count, make: floor_make, exhaustive_note: "" }, run: floor_case },
             SubCheck { name: "body_masks", kind: Kind::Enum { count: |_| 1 << 18, make: idx_make, exhaustive_note: "all 2^18 presence masks of the 18 optional TransactionBody fields, minimal and boundary contents" }, run: body_mask_case },
             SubCheck { name: "ppu_masks", kind: Kind::Enum { count: ppu_count, make: idx_make, exhaustive_note: "all ProtocolParamUpdate presence masks of weight <= 2 and >= 29 (of 31 settable fields) plus a seeded sample" }, run: ppu_mask_case },
+            SubCheck { name: "fixed_tx", kind: Kind::Tape { quick: 150_000, thorough: 3_000_000, max_len: 500 }, run: fixed_tx_case },
             SubCheck { name: "variants", kind: Kind::Enum { count: variants_count, make: idx_make, exhaustive_note: "every certificate (19) / governance action (7) / relay (3) / native script / drep / voter variant x all tapes of length 5 (quick) or 6 (thorough) over the boundary alphabet {00,10,55,80,aa,ff}" }, run: variant_case },
         ],
         crash_prone: false,
@@ -369,4 +371,143 @@ fn variant_case(ctx: &mut Ctx, input: &[u8]) -> CaseResult {
             check_roundtrip(ctx, &es[entry_named(es, "Voter")], &v, true, "variant-sweep")
         }
     })
+}
+
+/// FixedTransaction built through the public API (loaded, then given more witnesses through every adder): the same
+/// round-trip clauses as for every other type, with equality taken over its getters.
+fn fixed_tx_case(ctx: &mut Ctx, tape: &[u8]) -> CaseResult {
+    let (plan, content) = split_plan(tape, 24);
+    let mut g = Gen::new(content, 3, 4);
+    let tx = transaction(&mut g);
+    let b0 = tx.to_bytes();
+    let mut t = Tape::new(plan);
+    let lib = |what: &str, p: PanicInfo| Failure::new(format!("fixed_tx/panic/{}|{}", what, p.cause()), format!("{} panicked at {}:{}: {}", what, p.file, p.line, p.msg));
+    let route = t.choose(3);
+    let mut ftx = match route {
+        0 => match catch(|| FixedTransaction::from_bytes(b0.clone())).map_err(|p| lib("from_bytes", p))? {
+            Ok(f) => f,
+            Err(e) => fail!("fixed_tx/own-encoding-rejected", "FixedTransaction::from_bytes rejects Transaction::to_bytes: {:?} {}", e, hex::encode(&b0)),
+        },
+        _ => {
+            let body = tx.body().to_bytes();
+            let wits = tx.witness_set().to_bytes();
+            let r = match (route, tx.auxiliary_data()) {
+                (2, Some(a)) => catch(|| FixedTransaction::new_with_auxiliary(&body, &wits, &a.to_bytes(), tx.is_valid())).map_err(|p| lib("new_with_auxiliary", p))?,
+                _ => catch(|| FixedTransaction::new(&body, &wits, tx.is_valid())).map_err(|p| lib("new", p))?,
+            };
+            match r {
+                Ok(f) => f,
+                Err(e) => fail!("fixed_tx/own-parts-rejected", "FixedTransaction::new rejects the parts of a generated transaction: {:?} {}", e, hex::encode(&b0)),
+            }
+        }
+    };
+    ctx.label(["fixed_tx:route:from_bytes", "fixed_tx:route:new", "fixed_tx:route:new_with_auxiliary"][route]);
+    let had_boots = tx.witness_set().bootstraps().map(|b| b.len() > 0).unwrap_or(false);
+    let had_vkeys = tx.witness_set().vkeys().map(|b| b.len() > 0).unwrap_or(false);
+    let n_ops = t.choose(6);
+    let mut history: Vec<&'static str> = Vec::new();
+    for _ in 0..n_ops {
+        match t.choose(6) {
+            0 => {
+                let sk = PrivateKey::from_normal_bytes(&t.pooled(4, 32, 40)).expect("32 bytes");
+                match catch(|| ftx.sign_and_add_vkey_signature(&sk)).map_err(|p| lib("sign_and_add_vkey_signature", p))? {
+                    Ok(()) => history.push("sign_vkey"),
+                    Err(_) => {}
+                }
+            }
+            1 => {
+                let seed = t.bytes(6);
+                let mut g2 = Gen::new(&seed, 1, 1);
+                let w = vkeywitness(&mut g2);
+                catch(|| ftx.add_vkey_witness(&w)).map_err(|p| lib("add_vkey_witness", p))?;
+                history.push("add_vkey_witness");
+            }
+            2 | 3 => {
+                let seed = t.bytes(6);
+                let mut g2 = Gen::new(&seed, 1, 1);
+                let w = bootstrap_witness(&mut g2);
+                catch(|| ftx.add_bootstrap_witness(&w)).map_err(|p| lib("add_bootstrap_witness", p))?;
+                history.push("add_bootstrap_witness");
+            }
+            4 => {
+                let root = Bip32PrivateKey::from_bytes(&{
+                    let mut b = t.pooled(2, 96, 43);
+                    b[0] &= 0b1111_1000;
+                    b[31] &= 0b0001_1111;
+                    b[31] |= 0b0100_0000;
+                    b
+                });
+                if let Ok(root) = root {
+                    let addr = ByronAddress::icarus_from_key(&root.to_public(), NetworkInfo::mainnet().protocol_magic());
+                    if let Ok(()) = catch(|| ftx.sign_and_add_icarus_bootstrap_signature(&addr, &root)).map_err(|p| lib("sign_and_add_icarus_bootstrap_signature", p))? {
+                        history.push("sign_icarus_bootstrap");
+                    }
+                }
+            }
+            _ => {
+                // through the wire in between
+                let mid = catch(|| ftx.to_bytes()).map_err(|p| lib("to_bytes", p))?;
+                ftx = match catch(|| FixedTransaction::from_bytes(mid.clone())).map_err(|p| lib("from_bytes", p))? {
+                    Ok(f) => f,
+                    Err(e) => fail!("fixed_tx/own-output-rejected", "after {:?}: from_bytes rejects the value's own encoding: {:?} {}", history, e, hex::encode(&mid)),
+                };
+                history.push("to_bytes+from_bytes");
+            }
+        }
+    }
+    let b = catch(|| ftx.to_bytes()).map_err(|p| lib("to_bytes", p))?;
+    if let Err(e) = cbor::parse_document(&b) {
+        fail!("fixed_tx/malformed-cbor", "after {:?}: to_bytes is not one well-formed CBOR item ({}): {}", history, e, hex::encode(&b))
+    }
+    let f2 = match catch(|| FixedTransaction::from_bytes(b.clone())).map_err(|p| lib("from_bytes", p))? {
+        Ok(f) => f,
+        Err(e) => fail!("fixed_tx/decode-fails", "after {:?}: from_bytes rejects the value's own encoding: {:?} {}", history, e, hex::encode(&b)),
+    };
+    let h = format!("route {} history {:?}", route, history);
+    ensure!(f2.body() == ftx.body(), "fixed_tx/decoded-differs/body", "{}: {}", h, hex::encode(&b));
+    let (w1, w2) = (ftx.witness_set(), f2.witness_set());
+    let count = |w: &TransactionWitnessSet| (w.vkeys().map(|x| x.len()).unwrap_or(0), w.bootstraps().map(|x| x.len()).unwrap_or(0));
+    ensure!(
+        w1 == w2 || equal_modulo_empty_json(&w1.to_json().unwrap_or_default(), &w2.to_json().unwrap_or_default()),
+        "fixed_tx/decoded-differs/witness-set",
+        "{}: the value holds (vkeys, bootstraps) = {:?}, its decoded encoding {:?}; bytes {}",
+        h, count(&w1), count(&w2), hex::encode(&b)
+    );
+    ensure!(f2.is_valid() == ftx.is_valid(), "fixed_tx/decoded-differs/is_valid", "{}", h);
+    ensure!(f2.auxiliary_data() == ftx.auxiliary_data(), "fixed_tx/decoded-differs/auxiliary-data", "{}: {}", h, hex::encode(&b));
+    ensure!(f2.transaction_hash().to_bytes() == ftx.transaction_hash().to_bytes(), "fixed_tx/decoded-differs/transaction-hash", "{}", h);
+    let b2 = catch(|| f2.to_bytes()).map_err(|p| lib("to_bytes", p))?;
+    ensure!(b2 == b, "fixed_tx/re-encoding-differs", "{}: {} then {}", h, hex::encode(&b), hex::encode(&b2));
+    let hx = catch(|| ftx.to_hex()).map_err(|p| lib("to_hex", p))?;
+    ensure!(hx == hex::encode(&b), "fixed_tx/to_hex-differs-from-to_bytes", "{}", h);
+    for text in [hx.clone(), hx.to_uppercase()] {
+        match catch(|| FixedTransaction::from_hex(&text)).map_err(|p| lib("from_hex", p))? {
+            Ok(f3) => ensure!(f3.to_bytes() == b, "fixed_tx/from_hex-differs-from-from_bytes", "{}", h),
+            Err(e) => fail!("fixed_tx/from_hex-rejects", "{}: {:?}", h, e),
+        }
+    }
+    for op in &history {
+        ctx.label(&format!("fixed_tx:op:{}", op));
+    }
+    if history.iter().any(|x| *x == "add_bootstrap_witness" || *x == "sign_icarus_bootstrap") && had_boots {
+        ctx.label("fixed_tx:bootstrap-added-to-existing-bootstraps");
+    }
+    if history.iter().any(|x| *x == "add_vkey_witness" || *x == "sign_vkey") && had_vkeys {
+        ctx.label("fixed_tx:vkey-added-to-existing-vkeys");
+    }
+    if !history.is_empty() {
+        ctx.nontrivial(fp64(&b));
+        ctx.sample("fixed_tx", || format!("{} -> {} bytes", h, b.len()));
+    }
+    Ok(())
+}
+
+fn equal_modulo_empty_json(a: &str, b: &str) -> bool {
+    let (mut va, mut vb): (J, J) = match (serde_json::from_str(a), serde_json::from_str(b)) {
+        (Ok(x), Ok(y)) => (x, y),
+        _ => return false,
+    };
+    normalise_json(&mut va, None);
+    normalise_json(&mut vb, None);
+    va == vb
 }
